@@ -508,6 +508,207 @@ class TopOfSpace(VmSequences):
         return "top-of-space sequence #%d: %s" % (case, " ; ".join(show_op(o) for o in TOP_SEQUENCES[case]))
 
 
+# ======================================================================================================
+# shape-bounded SYMBOLIC obligations on the page look-up and the overlap test (vc/cvc.py on the real vm_mngr.c)
+# ======================================================================================================
+
+_VMPROG = {}
+
+
+def vm_program():
+    from vc import cvc
+    if "p" not in _VMPROG:
+        tu = cvc.clang_ast(os.path.join(JIT, "vm_mngr.c"), [JIT, sysconfig.get_paths()["include"]])
+        # keep the declarations of vm_mngr.c / vm_mngr.h only (the translation unit drags in all of Python.h)
+        keep = []
+        for d in tu.get("inner", []):
+            if d.get("kind") in ("RecordDecl", "TypedefDecl", "EnumDecl"):
+                keep.append(d)
+            elif d.get("kind") in ("FunctionDecl", "VarDecl") and d.get("name") in (
+                    "find_page_node", "midpoint", "is_mpn_in_tab", "fprintf", "stderr", "stdout", "exit"):
+                keep.append(d)
+        _VMPROG["p"] = {"inner": keep}
+    prog = cvc.Program()
+    prog.add_tu(_VMPROG["p"])
+    return prog
+
+
+class LookupTarget(object):
+    """find_page_node / is_mpn_in_tab interpreted from the real vm_mngr.c on a table of n pages whose addresses and sizes are
+    SYMBOLIC (64-bit, unbounded); precondition: the table is sorted, non-overlapping, without empty pages (the representation
+    invariant add_memory_page maintains).  Known finding C24-top-of-address-space: a page whose end wraps (ad + size >= 2^64)."""
+    kind = "bounded"
+
+    def __init__(self, fname, n):
+        self.id = "C24/%s/pages=%d" % (fname, n)
+        self.fname, self.n = fname, n
+        self.min_obligations = 1
+        self.params = {"pages": n}
+        self.bound = "%d pages in the table (addresses, sizes and the key symbolic)" % n
+
+    def obligations(self):
+        import z3
+        from vc import cvc
+        prog = vm_program()
+        it = cvc.Interp(prog, max_unroll=40)
+        U64 = cvc.CType("int", 64, False)
+        I32 = cvc.CType("int", 32, True)
+        n = self.n
+        ads = [z3.BitVec("ad%d" % i, 64) for i in range(n)]
+        szs = [z3.BitVec("size%d" % i, 64) for i in range(n)]
+        pages = [{"ad": cvc.Val(ads[i], U64), "size": cvc.Val(szs[i], U64), "access": cvc.Val(cvc.bv(3, 32), cvc.CType("int", 32, False)),
+                  "ad_hp": None, "name": None} for i in range(n)]
+        it.heap["PAGES"] = pages
+
+        def wide(x):
+            return z3.ZeroExt(1, x)
+        end = [wide(ads[i]) + wide(szs[i]) for i in range(n)]
+        pre = [szs[i] != 0 for i in range(n)]
+        pre += [z3.ULE(end[i], wide(ads[i + 1])) for i in range(n - 1)]
+        wraps = z3.Or(*[z3.UGT(end[i], z3.BitVecVal(1 << 64, 65)) for i in range(n)]) if n else z3.BoolVal(False)
+        top = z3.Or(*[end[i] == z3.BitVecVal(1 << 64, 65) for i in range(n)]) if n else z3.BoolVal(False)
+        pre.append(z3.Not(wraps))        # a page cannot extend past the address space (create_memory_page_node never builds one)
+        st = cvc.State()
+        if self.fname == "find_page_node":
+            key = z3.BitVec("key", 64)
+            args = [cvc.Ref(("PAGES", [])), cvc.Val(key, U64), cvc.Val(cvc.bv(0, 32), I32), cvc.Val(cvc.bv(n - 1, 32), I32)]
+            it.assume = list(pre)
+            r = it.call(prog.funcs["find_page_node"], args, st)
+            want = z3.BitVecVal(-1, 32)
+            for i in reversed(range(n)):
+                inside = z3.And(z3.ULE(ads[i], key), z3.ULT(wide(key), end[i]))
+                want = z3.If(inside, z3.BitVecVal(i, 32), want)
+            goals = [("returns-the-page-holding-the-key", r.t == want)]
+        else:
+            a_ad, a_sz = z3.BitVec("new_ad", 64), z3.BitVec("new_size", 64)
+            a_end = wide(a_ad) + wide(a_sz)
+            pre += [a_sz != 0, z3.ULE(a_end, z3.BitVecVal(1 << 64, 65))]
+            top = z3.Or(top, a_end == z3.BitVecVal(1 << 64, 65))
+            vm = {"memory_pages_number": cvc.Val(cvc.bv(n, 32), I32), "memory_pages_array": cvc.Ref(("PAGES", []))}
+            new = {"ad": cvc.Val(a_ad, U64), "size": cvc.Val(a_sz, U64), "access": cvc.Val(cvc.bv(3, 32), cvc.CType("int", 32, False)),
+                   "ad_hp": None, "name": None}
+            it.assume = list(pre)
+            r = it.call(prog.funcs["is_mpn_in_tab"], [vm, new], st)
+            overlap = z3.Or(*[z3.And(z3.ULT(wide(ads[i]), a_end), z3.ULT(wide(a_ad), end[i])) for i in range(n)]) if n else z3.BoolVal(False)
+            goals = [("answers-1-exactly-on-overlap", (r.t != 0) == overlap)]
+        for kind in ("output", "abort", "ub-index", "uninit"):
+            evs = [c for (k, c, info) in it.events if k == kind]
+            if evs:
+                goals.append(("no-" + kind, z3.Not(z3.Or(*evs))))
+        return pre, top, goals
+
+    def run_custom(self, findings, seed):
+        import hashlib
+        import time
+        import z3
+        t0 = time.time()
+        res = {"id": self.id, "kind": "bounded", "params": self.params, "bound": self.bound, "functions": [], "paths": 0,
+               "obligations": 0, "discharged": 0, "refuted": [], "undecided": [], "unsupported": None, "engine_error": None,
+               "known": [], "backends": {}, "samples": [], "solver_time": 0.0, "covers": [], "extra_coverage": {}}
+        with open(os.path.join(JIT, "vm_mngr.c"), "rb") as fh:
+            res["functions"].append({"name": "miasm/jitter/vm_mngr.c:" + self.fname, "file": os.path.join(JIT, "vm_mngr.c"),
+                                     "sha256": hashlib.sha256(fh.read()).hexdigest()})
+        known = [f for f in findings if f.get("status", "known") == "known" and f["id"] == "C24-top-of-address-space"]
+        try:
+            from vc import cvc
+            try:
+                pre, top, goals = self.obligations()
+            except cvc.Unsupported as ex:
+                res["unsupported"] = "outside the C subset: %s" % ex
+                return res
+            for label, goal in goals:
+                res["obligations"] += 1
+                ob = "%s/%s" % (self.id, label)
+                s = z3.Solver()
+                s.set("rlimit", 80000000)
+                s.add(*pre)
+                if known:
+                    s.add(z3.Not(top))      # outside the known finding's witness region: a page ending exactly at 2^64
+                s.add(z3.Not(goal))
+                r = s.check()
+                if r == z3.unsat:
+                    res["discharged"] += 1
+                    res["backends"]["z3-bv"] = res["backends"].get("z3-bv", 0) + 1
+                    if len(res["samples"]) < 1:
+                        res["samples"].append({"obligation": ob, "verdict": "discharged for all addresses, sizes and keys"})
+                elif r == z3.unknown:
+                    res["undecided"].append({"obligation": ob, "reason": s.reason_unknown(), "goal": label})
+                else:
+                    m = s.model()
+                    # prefer a small counter-model (pages of a few bytes at low addresses): it replays on the compiled code
+                    for bits in (6, 12, 20):
+                        s.push()
+                        for d in m.decls():
+                            v = z3.BitVec(d.name(), 64)
+                            s.add(z3.ULT(v, z3.BitVecVal(1 << (bits if d.name().startswith(("size", "new_size")) else bits + 8), 64)))
+                        if s.check() == z3.sat:
+                            m = s.model()
+                            s.pop()
+                            break
+                        s.pop()
+                    model = dict((d.name(), m[d].as_long()) for d in m.decls() if hasattr(m[d], "as_long"))
+                    res["refuted"].append({"obligation": ob, "model": model, "backend": "z3-bv",
+                                           "replay": native_lookup_replay(self.fname, self.n, model), "goal": label, "pc": []})
+                if known and label in ("returns-the-page-holding-the-key", "answers-1-exactly-on-overlap"):
+                    # the witness region must still fail, otherwise the entry is stale
+                    s2 = z3.Solver()
+                    s2.set("rlimit", 80000000)
+                    s2.add(*pre)
+                    s2.add(top)
+                    s2.add(z3.Not(goal))
+                    if s2.check() == z3.sat and self.n:
+                        m = s2.model()
+                        res["known"].append({"finding": known[0]["id"], "obligation": ob, "replay": "fails",
+                                             "model": dict((d.name(), m[d].as_long()) for d in m.decls() if hasattr(m[d], "as_long"))})
+        except Exception as ex:     # noqa
+            import traceback
+            res["engine_error"] = "%s\n%s" % (ex, traceback.format_exc())
+        res["wall"] = time.time() - t0
+        res["solver_time"] = res["wall"]
+        return res
+
+    def replay_custom(self, rp):
+        return dict(native_lookup_replay(self.fname, self.n, rp.get("model", {})), failed=[])
+
+
+def native_lookup_replay(fname, n, model):
+    """the counter-model on the compiled extension: map the pages and query the address (find_page_node through is_mapped,
+    is_mpn_in_tab through add_memory_page)"""
+    try:
+        mod, lib = build()
+        vm = mod.Vm()
+        vm.set_little_endian()
+        for i in range(n):
+            ad, size = int(model.get("ad%d" % i, 0)), int(model.get("size%d" % i, 1))
+            if size > 1 << 20:
+                return {"status": "undetermined", "detail": "page of %d bytes: not replayed natively" % size}
+            vm.add_memory_page(ad, 3, b"\x00" * size, "p")
+        if fname == "find_page_node":
+            key = int(model.get("key", 0))
+            want = any(int(model.get("ad%d" % i, 0)) <= key < int(model.get("ad%d" % i, 0)) + int(model.get("size%d" % i, 1)) for i in range(n))
+            got = bool(vm.is_mapped(key, 1))
+            return {"status": "fails" if got != want else "passes", "detail": "is_mapped(%#x, 1) = %r, expected %r" % (key, got, want),
+                    "values": model}
+        ad, size = int(model.get("new_ad", 0)), int(model.get("new_size", 1))
+        if size > 1 << 20:
+            return {"status": "undetermined", "detail": "page of %d bytes: not replayed natively" % size}
+        want = any(max(ad, int(model.get("ad%d" % i, 0))) < min(ad + size, int(model.get("ad%d" % i, 0)) + int(model.get("size%d" % i, 1)))
+                   for i in range(n))
+        try:
+            vm.add_memory_page(ad, 3, b"\x00" * size, "q")
+            got = False
+        except Exception:
+            got = True
+        return {"status": "fails" if got != want else "passes", "detail": "add_memory_page(%#x, %d bytes) %s, overlap expected: %r" % (
+            ad, size, "refused" if got else "accepted", want), "values": model}
+    except Exception as ex:     # noqa
+        return {"status": "undetermined", "detail": "native replay impossible: %r" % (ex,)}
+
+
 def targets(tier):
-    return chunked(VmSequences, "C24/VmMngr-sequences", 16, tier) + [TopOfSpace("C24/top-of-address-space", 0, 1, tier)]
+    ts = chunked(VmSequences, "C24/VmMngr-sequences", 16, tier) + [TopOfSpace("C24/top-of-address-space", 0, 1, tier)]
+    for n in range(0, 4 if tier == "quick" else 6):
+        ts.append(LookupTarget("find_page_node", n))
+        ts.append(LookupTarget("is_mpn_in_tab", n))
+    return ts
 
